@@ -59,3 +59,24 @@ theorem nn_eval (bk : Backend) (qs : List ℚ) (h : ∀ q ∈ qs, 0 ≤ nnRound 
   unfold nnL
   rw [mapE_lrintIdx qs h]
 end Covfie.C04
+
+namespace Covfie.C04
+/-- the lattice point is unique away from the ties: a coordinate strictly within one half of an integer rounds to that integer
+    (what the exhaustive narrow-index sweeps of the harness use: cell `k` answers `k`, `k ± ¼`) -/
+theorem nnRound_eq_of_near (q : ℚ) (k : ℤ) (h : |q - (k : ℚ)| < 1/2) : nnRound q = k := by
+  have h1 := nnRound_half q
+  have h2 : |((nnRound q : ℤ) : ℚ) - (k : ℚ)| < 1 := by
+    have e : ((nnRound q : ℤ) : ℚ) - (k : ℚ) = (q - (k : ℚ)) - (q - ((nnRound q : ℤ) : ℚ)) := by ring
+    rw [e]
+    calc |(q - (k : ℚ)) - (q - ((nnRound q : ℤ) : ℚ))| ≤ |q - (k : ℚ)| + |q - ((nnRound q : ℤ) : ℚ)| := abs_sub _ _
+      _ < 1/2 + 1/2 := by linarith
+      _ = 1 := by norm_num
+  have h3 : |(nnRound q - k : ℤ)| < 1 := by
+    have : ((nnRound q - k : ℤ) : ℚ) = ((nnRound q : ℤ) : ℚ) - (k : ℚ) := by push_cast; ring
+    have h4 : |((nnRound q - k : ℤ) : ℚ)| < 1 := by rw [this]; exact h2
+    exact_mod_cast h4
+  have : nnRound q - k = 0 := by
+    rcases abs_lt.mp h3 with ⟨a, b⟩
+    omega
+  omega
+end Covfie.C04
